@@ -678,6 +678,9 @@ def replay_markup(ctx, obj):
         r = run_probe(rp['expr'])
         print('probe %s -> %s' % (rp['expr'], r))
         return 0 if r == 'ok' else 1
+    if rp.get('component') in ('href', 'href-events'):
+        import href_util
+        return href_util.replay_href(rp)
     if rp.get('component') != 'markup':
         return None
     abbr, cfg = rp['abbr'], rp.get('config') or {}
